@@ -72,6 +72,13 @@ func mkParser(name string) parser.FieldValueParser {
 		return parser.NewStrHashParser()
 	case "numrange":
 		return parser.NewNumRangeParser()
+	// the geohash parser is not in the Coq model: used by C16's panic-freedom probe only
+	case "geohash":
+		return parser.NewGeoHashParser(nil)
+	case "geohash7":
+		return parser.NewGeoHashParser(&parser.GeoOption{Precision: 7})
+	case "geohash8":
+		return parser.NewGeoHashParser(&parser.GeoOption{Precision: 8, CompressPrecisionCutoff: 6})
 	}
 	return nil
 }
